@@ -72,6 +72,16 @@ def _run(ctx, ncases, nsteps):
         traj.append((d.qpos.numpy().copy(), d.qvel.numpy().copy(), d.qacc.numpy().copy(), [world_contacts(d, k) for k in range(len(idx_list))], d.overflow.numpy().copy()))
       return traj
 
+    if sleep and sparse:
+      # recorded defect (C38/C11): the sleep-enabled (compacted) solve with a sparse Jacobian reads uninitialised scratch and is not
+      # even deterministic for ONE world; batch independence cannot be observed there
+      r1, r2 = run([0]), run([0])
+      acc.evals += 2
+      if not all(np.array_equal(a[0], b[0], equal_nan=False) for a, b in zip(r1, r2)):
+        acc.find("world 0 alone, twice, identical inputs: different (or NaN) trajectories with sleeping enabled and a sparse Jacobian", "solver (compact, sparse)",
+                 "sparse-sleep-nondeterminism", xml=xml)
+        acc.hit("sparse-sleep-nondeterministic-skipped")
+        continue
     batch = run(list(range(nworld)))
     perm = list(rng.permutation(nworld))
     batch2 = run(perm)
@@ -83,7 +93,10 @@ def _run(ctx, ncases, nsteps):
       alone = run([w])
       acc.evals += 1
       pos_in_perm = perm.index(w)
+      lastbits = False
       for s in range(nsteps):
+        if lastbits:
+          break   # from the first last-bit difference on, the two runs are different trajectories (contacts are compared after rounding)
         for k, nm in enumerate(("qpos", "qvel", "qacc")):
           a, b, b2 = alone[s][k][0], batch[s][k][w], batch2[s][k][pos_in_perm]
           if not (np.array_equal(a, b) and np.array_equal(a, b2)):
@@ -92,11 +105,12 @@ def _run(ctx, ncases, nsteps):
               # the sparse Newton Hessian J^T D J is accumulated in a number of row groups chosen from nworld (summation order)
               acc.find(f"world {w}: {nm} at step {s} differs in the last bits between running alone and in a batch of {nworld} (max diff {np.abs(a - b).max():.3g}; same at every batch position)",
                        "solver (_jtdaj_groups_per_world)", "batch-size-summation-order", xml=xml, world=w, step=s)
+              lastbits = True
               break
             acc.find(f"world {w}: {nm} at step {s} differs between running alone / at batch index {w} / at index {pos_in_perm} (max diff {max(np.abs(a - b).max(), np.abs(a - b2).max()):.3g})",
                      "forward.step", "batch-dependence", xml=xml, world=w, step=s, sleep=sleep)
             break
-        if alone[s][3][0] != batch[s][3][w]:
+        if not lastbits and alone[s][3][0] != batch[s][3][w]:
           acc.find(f"world {w}: contact list at step {s} differs between alone and batch", "collision", "batch-contacts", xml=xml, world=w, step=s)
       acc.distinct.add((c, w))
     acc.hit("sleep" if sleep else "nosleep")
